@@ -32,13 +32,13 @@ const nilSlice = "(mkS 0 0 0 0)"
 
 // Val is a symbolic Go value.
 type Val struct {
-	T      string     // SMT term ("" for struct values and tuples)
-	Typ    types.Type // static Go type (may be nil in specs)
-	Loc    *Loc       // for pointers whose target location is known
-	Fields []Val      // struct value, in field order
-	Tuple  []Val      // multi-value
-	Refl   *reflVal   // reflect.Value handles (reflectmodel.go)
-	ReflElems []Val   // a []reflect.Value built in place (variadic operand of reflect.Append)
+	T         string     // SMT term ("" for struct values and tuples)
+	Typ       types.Type // static Go type (may be nil in specs)
+	Loc       *Loc       // for pointers whose target location is known
+	Fields    []Val      // struct value, in field order
+	Tuple     []Val      // multi-value
+	Refl      *reflVal   // reflect.Value handles (reflectmodel.go)
+	ReflElems []Val      // a []reflect.Value built in place (variadic operand of reflect.Append)
 }
 
 type LocKind int
